@@ -198,7 +198,7 @@ pub fn renko_stream(data: &[u8]) -> CaseResult {
 
 /// Decode a candle stream on an exactly representable lattice (ticks of 1/4 around 100): ties, exactly
 /// flat bars, zero volume, outside bars and gaps are all one byte away from each other.
-fn lattice_candles(c: &mut Cur, max: usize) -> Vec<crate::gen::C5> {
+pub fn lattice_candles(c: &mut Cur, max: usize) -> Vec<crate::gen::C5> {
 	use crate::gen::C5;
 	let tick = 0.25;
 	let mut prev = 100.0f64;
